@@ -15,7 +15,7 @@ func TestC02(t *testing.T) {
 		ID: "C02",
 		Cfg: core.SimConfig{
 			Prop:   "C02",
-			Owned:  core.Own(core.CatHandles, core.CatInvPool, core.CatInvIndex, core.CatPanicCreate),
+			Owned:  core.Own(core.CatHandles, core.CatInvPool, core.CatInvIndex, core.CatPanicCreate, core.CatObserve),
 			Verify: core.VerifyOpts{Values: false, Relations: false, Scan: true, Hooks: true, Dead: true},
 		},
 		Mix: core.Mix{
